@@ -62,7 +62,7 @@ def _layout(mid_name, s, gap1, gap2, nl1, nl2):
     line += 1 if nl1 else 0
     i1 = 6 + len(sep1)
     t1 = tok(mid_name, s, line, i1)
-    line += s.count('\n')
+    # (the real lexer does not advance lineno for line breaks INSIDE a token)
     line += 1 if nl2 else 0
     i2 = i1 + len(s) + len(sep2)
     t2 = tok('ID', 'x', line, i2)
@@ -95,7 +95,7 @@ def _check(mid_name, s, gap1, gap2, nl1, nl2):
 def quote_string(s: str) -> bool:
     """
     pre: len(s) <= N
-    pre: read_quoted_mindsdb(s, "'") is not None and chr(10) not in s
+    pre: read_quoted_mindsdb(s, "'") is not None
     post: _
     """
     return _check('QUOTE_STRING', s, 1, 1, False, False)
@@ -104,7 +104,7 @@ def quote_string(s: str) -> bool:
 def dquote_string(s: str) -> bool:
     """
     pre: len(s) <= N
-    pre: read_quoted_mindsdb(s, '"') is not None and chr(10) not in s
+    pre: read_quoted_mindsdb(s, '"') is not None
     post: _
     """
     return _check('DQUOTE_STRING', s, 1, 1, False, False)
@@ -157,7 +157,8 @@ def reach(s: str) -> bool:
 
 # ---- layout: concrete lexemes of every kind, symbolic geometry, real lexer natively on each leaf --------------
 from crosshair.tracers import NoTracing
-LEXEMES = ["'it''s'", "''", "'a\\'b'", '"d\\"q"', '@x', "@'a b'", '@@y', '1.50', '007', 'Na_me', '`a b`']
+LEXEMES = ["'it''s'", "''", "'a\\'b'", '"d\\"q"', '@x', "@'a b'", '@@y', '1.50', '007', 'Na_me', '`a b`',
+           "'first\n  second'", '"x\n\ny"', '`p\n q`', "'tab\there  two  spaces'"]
 COMMENTS = ['', '/* c */', '-- c\n']
 
 
@@ -172,8 +173,16 @@ def layout_leaf(k, gap1, gap2, nl1, nl2, c1, c2):
     src = 'select' + sep1 + lex + sep2 + 'x, 2'
     toks = list(MindsDBLexer().tokenize(src))
     out = tokens_to_string(toks)
-    strip = lambda t: ' '.join(re.sub(r'/\*[\s\S]*?\*/|--[^\n]*', ' ', t).split())
-    if strip(out) != strip(src):
+    # every token's source text must occur verbatim, in order, in the stored text, separated only by whitespace
+    pos = 0
+    for t in toks:
+        raw = getattr(t.value, 'raw', None) or str(t.value)
+        while pos < len(out) and out[pos] in ' \t\r\n':
+            pos += 1
+        if not out.startswith(raw, pos):
+            return False
+        pos += len(raw)
+    if out[pos:].strip() != '':
         return False
     # and the stored text tokenises to the same decoded values
     toks2 = list(MindsDBLexer().tokenize(out))
@@ -182,10 +191,10 @@ def layout_leaf(k, gap1, gap2, nl1, nl2, c1, c2):
 
 def layout(k: int, gap1: int, gap2: int, nl1: bool, nl2: bool, c1: int, c2: int) -> bool:
     """
-    pre: 0 <= k < 11 and 0 <= gap1 <= 2 and 0 <= gap2 <= 2 and 0 <= c1 <= 2 and 0 <= c2 <= 2
+    pre: 0 <= k < 15 and 0 <= gap1 <= 2 and 0 <= gap2 <= 2 and 0 <= c1 <= 2 and 0 <= c2 <= 2
     post: _
     """
-    k, gap1, gap2, c1, c2 = _ci(k, 10), _ci(gap1, 2), _ci(gap2, 2), _ci(c1, 2), _ci(c2, 2)
+    k, gap1, gap2, c1, c2 = _ci(k, 14), _ci(gap1, 2), _ci(gap2, 2), _ci(c1, 2), _ci(c2, 2)
     nl1, nl2 = (True if nl1 else False), (True if nl2 else False)
     with NoTracing():
         return layout_leaf(k, gap1, gap2, nl1, nl2, c1, c2)
@@ -193,7 +202,7 @@ def layout(k: int, gap1: int, gap2: int, nl1: bool, nl2: bool, c1: int, c2: int)
 
 def layout_reach(k: int, gap1: int, gap2: int, nl1: bool, nl2: bool, c1: int, c2: int) -> bool:
     """
-    pre: 0 <= k < 11 and 0 <= gap1 <= 2 and 0 <= gap2 <= 2 and 0 <= c1 <= 2 and 0 <= c2 <= 2
+    pre: 0 <= k < 15 and 0 <= gap1 <= 2 and 0 <= gap2 <= 2 and 0 <= c1 <= 2 and 0 <= c2 <= 2
     post: False
     """
     return layout(k, gap1, gap2, nl1, nl2, c1, c2)
